@@ -145,8 +145,17 @@ func c05OneInFlight(c *Check, P string, r *GCRoles) {
 	for i, s := range r.Sends {
 		// (a resend after a Nack needs no new poll: the sender kept the mutex, and the message it sends again is settled)
 		entry := ReachEntry(D, NewCut().AddInstrs(polls...))
-		c.Report(len(polls) > 0 && !entry[s.Ins], P+".O1", "NO-SEND-ONCE-CLOSING", D, s.Ins.Pos(), fmt.Sprintf("send#%d", i),
-			"every path to the send passes a non-blocking poll of the subscription's closing signal that gives up when it is raised (in the send select itself the closing case competes with the send at random, so a queued second message could be delivered while the first is unsettled)")
+		// … asked with the sending mutex held: a poll in front of the acquisition was answered before the sender queued up
+		okHeld := true
+		for _, cl := range CallsIn(D) {
+			if op, isOp := r.LA.opOf(cl); isOp && op.mode == 'W' && op.id == r.idSending {
+				if _, isDefer := cl.(*ssa.Defer); !isDefer && ReachAfter(cl, NewCut().AddInstrs(polls...))[s.Ins] {
+					okHeld = false
+				}
+			}
+		}
+		c.Report(len(polls) > 0 && !entry[s.Ins] && okHeld, P+".O1", "NO-SEND-ONCE-CLOSING", D, s.Ins.Pos(), fmt.Sprintf("send#%d", i),
+			"every path from the acquisition of the sending mutex to the send passes a non-blocking poll of the subscription's closing signal that gives up when it is raised (in the send select itself the closing case competes with the send at random, so a queued second message could be delivered while the first is unsettled)")
 	}
 	c.RoleKeys = false
 	for i, sw := range sws {
